@@ -83,9 +83,13 @@ def solver_eigen_scipy(**kwargs) -> EigenSolver:
         from scipy.sparse.linalg import eigs
         if not getattr(K, 'has_canonical_format', True):
             K = K.copy()  # shift-invert may factorise the operand in place
-        # a fixed start vector: ARPACK draws a random one otherwise
-        return eigs(K, M=M, **{'v0': np.ones(K.shape[0]),
-                               **params, **solve_time_kwargs})
+        if not getattr(M, 'has_canonical_format', True):
+            M = M.copy()  # regular mode factorises M through a view
+        # a fixed start vector: ARPACK draws a random one otherwise; it must
+        # be generic (a constant vector is invariant under the symmetries of
+        # the mesh and in the kernel of an unconstrained stiffness matrix)
+        v0 = np.random.default_rng(0).standard_normal(K.shape[0])
+        return eigs(K, M=M, **{'v0': v0, **params, **solve_time_kwargs})
 
     return solver
 
@@ -110,9 +114,13 @@ def solver_eigen_scipy_sym(**kwargs) -> EigenSolver:
         from scipy.sparse.linalg import eigsh
         if not getattr(K, 'has_canonical_format', True):
             K = K.copy()  # shift-invert may factorise the operand in place
-        # a fixed start vector: ARPACK draws a random one otherwise
-        return eigsh(K, M=M, **{'v0': np.ones(K.shape[0]),
-                                **params, **solve_time_kwargs})
+        if not getattr(M, 'has_canonical_format', True):
+            M = M.copy()  # regular mode factorises M through a view
+        # a fixed start vector: ARPACK draws a random one otherwise; it must
+        # be generic (a constant vector is invariant under the symmetries of
+        # the mesh and in the kernel of an unconstrained stiffness matrix)
+        v0 = np.random.default_rng(0).standard_normal(K.shape[0])
+        return eigsh(K, M=M, **{'v0': v0, **params, **solve_time_kwargs})
 
     return solver
 
